@@ -37,6 +37,61 @@ def falls_through(result) -> bool:
     return False
 
 
+def tail_after_call(result):
+    from .props.c02 import tail_after_call as f
+    return f(result)
+
+
+def end_label_unterminated(result) -> bool:
+    """precondition of the second tail-call defect: a function whose 'j ra' was suppressed for a
+    tail call still has its '<name>end' exit (early returns jump there), so that exit runs on into
+    whatever follows.  Detected on the final instruction list: inside a function region an
+    instruction jumps to the position just past the region's last instruction, or a '<name>end:'
+    label is the last line of its region."""
+    final = (result.get("_verif") or {}).get("final") or []
+    for i, ins in enumerate(final):
+        op = ins["op"].strip()
+        own = ins.get("owner")
+        if own and op.endswith("end:"):
+            nxt = final[i + 1] if i + 1 < len(final) else None
+            if nxt is None or nxt.get("owner") != own:
+                # is it referenced?
+                name = op[:-1]
+                if any(a.get("val") == name for x in final for a in x["in"]):
+                    return True
+    return False
+
+
+def forlist_contains_call(P) -> bool:
+    """source-level precondition of the known finding 'call inside a constant-list loop': some
+    `for x in [consts]` body contains a call of a user function"""
+    def has_call(x):
+        if isinstance(x, tuple):
+            if x and x[0] == "call":
+                return True
+            return any(has_call(y) for y in x[1:])
+        if isinstance(x, list):
+            return any(has_call(y) for y in x)
+        return False
+
+    def walk(ss, inside):
+        for s in ss:
+            if inside and has_call(s):
+                return True
+            if s[0] == "forlist" and (has_call(s[3]) or walk(s[3], True)):
+                return True
+            if s[0] == "if" and (any(walk(b, inside) for _, b in s[1]) or (s[2] and walk(s[2], inside))):
+                return True
+            if s[0] == "while" and walk(s[2], inside):
+                return True
+            if s[0] == "forrange" and walk(s[3], inside):
+                return True
+        return False
+    if P is None:
+        return False
+    return walk(P.main, False) or any(walk(f.body, False) for f in P.funcs)
+
+
 class Case:
     def __init__(self, name, prog, vname, opts, result):
         self.name, self.prog, self.vname, self.opts, self.result = name, prog, vname, opts, result
@@ -88,6 +143,10 @@ def describe(c, k, t, with_traces=True):
         "options": c.opts, "option_set": c.vname, "program": c.name, "source": c.prog.text(),
         "code": c.result.get("code"), "features": sorted(c.prog.features),
         "falls_through": falls_through(c.result),
+        "forlist_contains_call": forlist_contains_call(c.prog),
+        "tail_call": bool(c.opts.get("tail_call_optimization")), "push_pop": bool(c.opts.get("use_push_pop_functions")),
+        "tail_after_call": tail_after_call(c.result) if c.opts.get("tail_call_optimization") else False,
+        "tail_end_label_unterminated": end_label_unterminated(c.result) if c.opts.get("tail_call_optimization") else False,
         # the divergence lies after everything the source does (consistent with running past
         # the end of the main code)
         "after_main_finished": bool(send == 1 and idx >= ns) if code in (2, 4) else False,
